@@ -58,6 +58,16 @@ async def open_kind(kind, ports, oport, uport):
     if kind in ("rev", "revmute"):
         c = await open_conn("127.0.0.1", ports[kind])
         return {"kind": kind, "c": c, "src": c.local[1]}
+    if kind == "http-udp":
+        # a UDP association carried over CONNECT with inline frames (Proxy-Protocol: udp)
+        from .lib import http_connect_bytes, http_reply
+        c = await open_conn("127.0.0.1", ports["http"])
+        c.write(http_connect_bytes("0.0.0.0", 0, [("Proxy-Protocol", "udp")]))
+        await c.drain()
+        st, hdrs = await http_reply(c)
+        assert st == 200, st
+        attr = bytes([1, 6]) + socket.inet_pton(socket.AF_INET, "127.0.0.1") + struct.pack(">H", uport)
+        return {"kind": kind, "c": c, "src": c.local[1], "frame": (int(hdrs.get("session-id", "0")), attr)}
     if kind == "socks-udp":
         c = await open_conn("127.0.0.1", ports["socks"])
         rep, bh, bp = await socks5_connect(c, "0.0.0.0", 0, cmd=3)
@@ -84,6 +94,17 @@ async def ping(t, payload=b"x"):
             data, _ = await asyncio.wait_for(loop.sock_recvfrom(t["u"], 65536), 2.0)
             return now()
         except asyncio.TimeoutError:
+            return None
+    if "frame" in t:
+        sid, attr = t["frame"]
+        t["c"].write(b"RPFM" + struct.pack(">IHH", sid, len(attr), len(payload)) + attr + payload)
+        await t["c"].drain()
+        try:
+            head = await t["c"].read_exact(12, timeout=2.0)
+            _, alen, blen = struct.unpack(">IHH", head[4:])
+            await t["c"].read_exact(alen + blen, timeout=2.0)
+            return now()
+        except Exception:
             return None
     t["c"].write(payload)
     await t["c"].drain()
@@ -345,7 +366,7 @@ async def stalled_log_scenario(out, args, wd, oport):
 async def main(args):
     from . import lib as _lib
     _lib.UNIQUE_SRC = True   # records are joined with connections by source port
-    out = Out("C13", "c13", "configs {timeouts absent, idle 0/udp 0, idle 2/udp 4, idle 4/udp 2, idle 6/udp 6} x listener kinds {http, socks, reverse-tcp, reverse-udp, socks-udp, CONNECT-over-QUIC} x traffic patterns {silent, trickle just under the period, burst then silence} x io modes; /api/live wiring check and wall-clock close window. distinct = distinct (listener kind, pattern, config, io mode)")
+    out = Out("C13", "c13", "configs {timeouts absent, idle 0/udp 0, idle 2/udp 4, idle 4/udp 2, idle 6/udp 6} x listener kinds {http, socks, reverse-tcp, reverse-udp, socks-udp, UDP over CONNECT with inline frames, CONNECT-over-QUIC} x traffic patterns {silent, trickle just under the period, burst then silence} x io modes; /api/live wiring check and wall-clock close window. distinct = distinct (listener kind, pattern, config, io mode)")
     rng = random.Random(args.seed)
     origin = await TcpOrigin(echo_handler, host="127.0.0.1").start()
     mute = await TcpOrigin(mute_handler, host="127.0.0.1").start()
@@ -368,8 +389,8 @@ async def main(args):
                 procs += [A, C]
                 await A.start()
                 await C.start()
-                for kind in ("http", "socks", "rev", "quic", "socks-udp", "revudp", "revmute"):
-                    T = t_udp if kind in ("socks-udp", "revudp") else t_tcp
+                for kind in ("http", "socks", "rev", "quic", "socks-udp", "revudp", "http-udp", "revmute"):
+                    T = t_udp if kind in ("socks-udp", "revudp", "http-udp") else t_tcp
                     if kind == "quic":
                         T = t_tcp  # enforced by A on the QUIC stream; C has timeouts disabled
                     if kind == "revmute" and cname != "idle6-udp6":
@@ -377,11 +398,11 @@ async def main(args):
                     elif cname == "absent":
                         pats = ["wiring-only"]
                     elif cname == "idle6-udp6":
-                        pats = ["burst"] if kind in ("http", "socks-udp", "rev") else ["fin-late"] if kind == "revmute" else []
+                        pats = ["burst"] if kind in ("http", "socks-udp", "http-udp", "rev") else ["fin-late"] if kind == "revmute" else []
                     elif cname == "zero":
                         pats = ["silent"] if (args.thorough or kind in ("http", "revudp")) else []
                     else:
-                        pats = ["silent", "trickle", "burst"] if args.thorough else [rng.choice(["silent", "burst"]), "trickle"] if kind in ("http", "socks", "socks-udp") else ["silent"]
+                        pats = ["silent", "trickle", "burst"] if args.thorough else [rng.choice(["silent", "burst"]), "trickle"] if kind in ("http", "socks", "socks-udp", "http-udp") else ["silent"]
                     if cname == "idle4-udp2" and kind in ("http", "rev"):
                         pats = list(pats) + ["trickle-full-4096"]
                     for p in pats:
